@@ -149,9 +149,9 @@ pub fn run(ctx: &Ctx) -> usize {
   }
   // through the day / hour objects
   let mut rng = ctx.rng(1801);
-  let n = if ctx.quick() { 2000 } else { 6000 };
+  let n = if ctx.quick() { 2000 } else { 60000 };
   for _ in 0..n {
-    let j = rng.range(1721424 + 400, 5373484 - 800);
+    let j = crate::windows::sample_day(&mut rng, 1721424 + 400, 5373484 - 800);
     let hh = rng.range(0, 23);
     let d = match catch_iso(|| JulianDay::from_julian_day(j as f64 - 0.5).get_solar_day()) {
       Some(d) => d,
